@@ -350,6 +350,73 @@ func checkDriver(c *Ctx, g *ebnfGrammar, rule string) *driverFacts {
 			reduceReads = true
 		}
 	}
+	// (7) the driver rejects only where the table, the lexer or a callback does: a return of a non-nil error is reached only
+	// on an edge where an error that came back from a call is non-nil, or where the action is none of SHIFT / REDUCE / ACCEPT.
+	// A rejection of the driver's own making (a stack limit, a token count) turns sentences of the grammar away.
+	errT := types.Universe.Lookup("error").Type()
+	for _, b := range fn.Blocks {
+		ret, isRet := b.Instrs[len(b.Instrs)-1].(*ssa.Return)
+		if !isRet || len(ret.Results) == 0 {
+			continue
+		}
+		rv := retOperand(ret, len(ret.Results)-1)
+		if isNilConst(rv) {
+			continue
+		}
+		fromCallee, otherCond := false, 0
+		conds := controlConds(b)
+		for _, cd := range conds {
+			bo, isB := cd.v.(*ssa.BinOp)
+			if !isB {
+				otherCond++
+				continue
+			}
+			if _, _, isEq := eqConst(cd.v, d.typ); isEq {
+				continue
+			}
+			var ev ssa.Value
+			switch {
+			case isNilConst(bo.Y) && types.Identical(bo.X.Type(), errT):
+				ev = bo.X
+			case isNilConst(bo.X) && types.Identical(bo.Y.Type(), errT):
+				ev = bo.Y
+			}
+			if ev == nil || (bo.Op != token.EQL && bo.Op != token.NEQ) {
+				otherCond++
+				continue
+			}
+			if (bo.Op == token.NEQ) != cd.pol {
+				continue // the error is nil here
+			}
+			for _, r := range rootsOf(fn, ev, func(v ssa.Value) bool { _, ok := v.(*ssa.Call); return ok }) {
+				switch r.(type) {
+				case *ssa.Call, *ssa.Extract:
+					fromCallee = true
+				}
+			}
+		}
+		noAction := !controlledByEq(b, d.typ, d.kShift) && !controlledByEq(b, d.typ, d.kReduce) && !controlledByEq(b, d.typ, d.kAccept)
+		excluded := 0
+		for _, cd := range conds {
+			if n, eq, isEq := eqConst(cd.v, d.typ); isEq && eq != cd.pol && (n == d.kShift || n == d.kReduce || n == d.kAccept) {
+				excluded++
+			}
+		}
+		key := "the driver rejects only where the table, the lexer or a callback reports an error"
+		switch {
+		case fromCallee:
+			c.Pass(rule, key, ret.Pos(), "return under a non-nil error that came back from a call")
+		case noAction && excluded >= 3 && d.ac.Block().Dominates(b):
+			c.Pass(rule, key, ret.Pos(), "return where the action is none of SHIFT, REDUCE, ACCEPT")
+		case !noAction && otherCond > 0:
+			c.Fail(rule, key, ret.Pos(), "a non-nil error is returned while carrying out a SHIFT, REDUCE or ACCEPT, under a condition of the driver's own (no error from ACTION, the lexer or a callback is non-nil there): a sentence of the documented grammar that meets the condition is rejected",
+				"a specification long or deep enough to meet the driver's condition, e.g. an alternation of many operands or deeply nested groups")
+		case !noAction:
+			c.Fail(rule, key, ret.Pos(), "a non-nil error is returned unconditionally while carrying out a SHIFT, REDUCE or ACCEPT")
+		default:
+			c.Undecided(rule, key, ret.Pos(), "a non-nil error is returned under conditions the rule does not recognise as an error from ACTION, the lexer or a callback")
+		}
+	}
 	c.Check(rule, "SHIFT advances the input by one token", pos, shiftReads, "no next-token read under action == lr.SHIFT")
 	c.Check(rule, "REDUCE/ACCEPT do not advance the input", pos, !reduceReads, "a next-token read under action == lr.REDUCE or lr.ACCEPT")
 	return d
